@@ -22,7 +22,7 @@ pub const RULE: &str = "whole .osu files (structured generator levels 0-2 in all
 
 /// Switch to `true` once `DrvEnc.v` is connected to the curve and slider-event
 /// models: files with sliders then become correspondence cases as well.
-pub const SLIDERS_IN_MODEL: bool = false;
+pub const SLIDERS_IN_MODEL: bool = true;
 
 pub const HEADERS: [&str; 8] =
     ["[General]", "[Editor]", "[Metadata]", "[Difficulty]", "[Events]", "[TimingPoints]", "[Colours]", "[HitObjects]"];
@@ -71,6 +71,17 @@ pub fn enc_case(text: &str, origin: &str, out: &mut Out) {
     let sl = has_slider(&m);
     out.count(if sl { "enc.with_sliders" } else { "enc.slider_free" });
     if sl && !SLIDERS_IN_MODEL {
+        return;
+    }
+    // the extracted slider-event model walks every span of every slider with list
+    // operations: sliders with thousands of repeats cost minutes there (milliseconds in
+    // the crate).  They stay in the oracle streams; as model cases they are capped.
+    let heavy = m.hit_objects.iter().any(|h| match &h.kind {
+        HitObjectKind::Slider(s) => s.repeat_count > 60,
+        _ => false,
+    });
+    if heavy {
+        out.count("enc.skipped_many_repeats");
         return;
     }
     let mut case = Line::entry("enc");
@@ -344,27 +355,6 @@ fn kind_tag(h: &HitObject) -> u8 {
     }
 }
 
-/// D2: a slider with more than one control point whose LAST control point carries a path type
-pub fn d2_class(map: &Beatmap) -> bool {
-    map.hit_objects.iter().any(|h| match &h.kind {
-        HitObjectKind::Slider(s) => {
-            let cps = s.path.control_points();
-            cps.len() > 1 && cps.last().map_or(false, |p| p.path_type.is_some())
-        }
-        _ => false,
-    })
-}
-
-pub fn d2_object(h: &HitObject) -> bool {
-    match &h.kind {
-        HitObjectKind::Slider(s) => {
-            let cps = s.path.control_points();
-            cps.len() > 1 && cps.last().map_or(false, |p| p.path_type.is_some())
-        }
-        _ => false,
-    }
-}
-
 /// D20: no explicit length and a computed curve longer than the decoder's length limit
 pub fn d18_object(h: &HitObject) -> bool {
     match &h.kind {
@@ -381,9 +371,7 @@ pub fn d18_object(h: &HitObject) -> bool {
 }
 
 pub fn lost_class(h: &HitObject) -> &'static str {
-    if d2_object(h) {
-        "D2"
-    } else if d18_object(h) {
+    if d18_object(h) {
         "D20"
     } else {
         ""
